@@ -293,6 +293,43 @@ def part_formula(ctx, shard):
                         ctx.violation(f"C09|offset-source|eq={eq}|from={fu}|to-dim={td}|mode=differs-from-formula", {"part": "formula", "eq": eq, "from": fu, "to": tu, "kw": {}}, want.tolist(), got.tolist())
 
 
+OFFSET_TARGETS = {"degC": (1.0, 273.15), "degF": (5.0 / 9.0, 459.67 * 5.0 / 9.0), "mdegC": (1.0e-3, 273.15)}  # K = scale * reading + zero
+
+
+def part_offset_targets(ctx, shard):
+    """targets on an offset temperature scale: every entry point - copying and in place - lands on the affine reading"""
+    world.reset_world()
+    for eq in shard:
+        F0 = formulas()[eq]
+        for (fd, td), f in F0.items():
+            if td != "temperature":
+                continue
+            for fu, (tu, (tsc, tzero)) in itertools.product(UNITS[fd][:2], OFFSET_TARGETS.items()):
+                for shape in ("array", "scalar"):
+                    src = make(src_values(eq, fd), fu, "float64", shape)
+                    kel = f(stored_si(src))
+                    want = (kel - tzero) / tsc
+                    results = {}
+                    for ename, ef in list(COPY_ENTRIES.items()) + list(INPLACE_ENTRIES.items()):
+                        ctx.count("evaluations")
+                        q = src.copy()
+                        st, r = run_entry(ef, q, tu, eq, {})
+                        case = {"part": "offset-target", "eq": eq, "from": fu, "to": tu, "entry": ename, "shape": shape}
+                        ctx.outcome(("offset-target", eq, fd, tu, ename, st))
+                        if st != "ok":
+                            ctx.count("offset_target_refused")
+                            continue
+                        ctx.decided(("offset-target", eq, fu, tu, ename, shape))
+                        res = q if ename in INPLACE_ENTRIES else r
+                        got = np.asarray(res.d if isinstance(res, unyt_array) else res, dtype=float)
+                        results[ename] = got
+                        tol = 1e-9 * np.maximum(np.abs(kel), 300.0) / tsc
+                        if got.shape != np.shape(want) or np.any(np.abs(got - want) > tol):
+                            ctx.violation(f"C09|offset-target|eq={eq}|from-dim={fd}|to={tu}|entry={ename}|mode=differs-from-formula", case, np.asarray(want).tolist(), got.tolist())
+                    if "to" in results and "convert_to_units" in results and np.any(np.abs(results["to"] - results["convert_to_units"]) > 1e-9 * np.abs(results["to"]) + 1e-9):
+                        ctx.violation(f"C09|offset-target|eq={eq}|from-dim={fd}|to={tu}|mode=in-place-differs-from-copy", {"part": "offset-target", "eq": eq, "from": fu, "to": tu}, results["to"].tolist(), results["convert_to_units"].tolist())
+
+
 def part_custom_registry(ctx, shard):
     """operands and target NAMES that live in a custom registry (a re-defined Msun, a code_mass symbol): every entry point
     reads the target name in the operand's registry"""
@@ -376,6 +413,7 @@ def run(ctx):
     harness.pmap(ctx, part_formula, [[e] for e in EQS])
     harness.pmap(ctx, part_uncovered, [[e] for e in EQS])
     harness.pmap(ctx, part_custom_registry, [["schwarzschild"], ["mass_energy"], ["compton"]])
+    harness.pmap(ctx, part_offset_targets, [["thermal"], ["sound_speed"], ["effective_temperature"]])
     return {
         "coverage": {
             "rule": "formula: equivalence x keyword set x ordered member-dimension pair x input unit x target unit x dtype x shape x "
@@ -404,6 +442,8 @@ def replay(case):
         part_custom_registry(ctx, [case["eq"]])
     elif case["part"] == "uncovered":
         part_uncovered(ctx, [case["eq"]])
+    elif case["part"] == "offset-target":
+        part_offset_targets(ctx, [case["eq"]])
     else:
         part_formula(ctx, [case["eq"]])
     return list(ctx.violations.items())
